@@ -260,8 +260,14 @@ func report(p *Property, tier string, seed int, res *runResult, start time.Time,
 		p.ID, total, discharged, violated, undecided, knownN, newViol)
 
 	if writeEvidence {
+		ruleDocs := []string{}
+		for _, r := range p.Rules {
+			if rt := ruleTable[r]; rt != nil {
+				ruleDocs = append(ruleDocs, r+": "+rt.Doc)
+			}
+		}
 		cov := map[string]interface{}{
-			"explanation":         p.Explanation,
+			"explanation":         p.Explanation + " Rules applied in this run - " + strings.Join(ruleDocs, "; ") + ".",
 			"not_covered":         p.NotCovered,
 			"obligations":         total,
 			"discharged":          discharged,
